@@ -152,9 +152,9 @@ theorem create_fresh_only_adds (n : Node) (src cid ident pk dh : Nat) (k : Nat) 
 /-! ## a destroy removes an entry only if it is signed by the adjacent peer of that entry -/
 
 /-- invalid signature, or a signer that is not the adjacent peer of an entry named `cid`: nothing happens -/
-theorem destroy_unauthorised_noop (n : Node) (signer cid : Nat) (ok : Bool)
+theorem destroy_unauthorised_noop (n : Node) (signer cid : Nat) (ok : Bool) (reason : Nat)
     (h : ¬ (ok = true ∧ Adjacent n signer cid)) :
-    onDestroy (B := B) n signer cid ok = (n, []) := by
+    onDestroy (B := B) n signer cid ok reason = (n, []) := by
   unfold onDestroy
   cases ok with
   | false => rfl
@@ -191,8 +191,8 @@ theorem destroy_unauthorised_noop (n : Node) (signer cid : Nat) (ok : Bool)
 
 /-- whatever a destroy does, it only touches the entry it names (and, for a relay, its pair) and what it removes
     was authorised: each table is either unchanged or lost exactly the entry whose adjacent peer signed -/
-theorem destroy_only_by_neighbour (n : Node) (signer cid : Nat) (ok : Bool) :
-    let r := onDestroy (B := B) n signer cid ok
+theorem destroy_only_by_neighbour (n : Node) (signer cid : Nat) (ok : Bool) (reason : Nat) :
+    let r := onDestroy (B := B) n signer cid ok reason
     (r.1.relays = n.relays ∨
       (ok = true ∧ ∃ nx pv, get n.relays cid = some nx ∧ get n.relays nx.next = some pv ∧ pv.hop.peer = signer ∧
         r.1.relays = del (del n.relays cid) nx.next)) ∧
@@ -433,7 +433,7 @@ theorem originator_step (L : AeadLaws A) (n : Node) (ch : Choice) (cid : Nat) (r
     own entries. -/
 theorem forward_path (L : AeadLaws A) (rs : List (Node × Relay)) (ex : Node) (e : ExitE)
     (cid last : Nat) (re : Bool) (src dest org tag : Nat)
-    (hchain : FwdChain rs cid last)
+    (hchain : FwdChain re rs cid last)
     (hr : get ex.relays last = none) (he : get ex.exits last = some e) (hc : get ex.circuits last = none)
     (hdest : dest ≠ 0) (hen : 2 ≤ e.phase) :
     through A (rs.map Prod.fst) ex src
@@ -449,14 +449,14 @@ theorem forward_path (L : AeadLaws A) (rs : List (Node × Relay)) (ex : Node) (e
     obtain ⟨n, nx⟩ := p
     obtain ⟨h1, h2, h3, h4⟩ := hchain
     simp only [List.map_cons, List.cons_append, through, encryptAll]
-    rw [relay_forward_step A L n src {} cid re _ nx h1 h2 (Or.inr h3)]
+    rw [relay_forward_step A L n src {} cid re _ nx h1 h2 h3]
     exact ih nx.next n.self h4
 
 /-- BACKWARD: whatever body enters the chain (the exit's reply under k_exit) gains one backward layer per relay
     and arrives at the final node labelled with the chain's last id; with `originator_step` this is the delivery
     at the originator under its own circuit id -/
 theorem backward_path (rs : List (Node × Relay)) (orig : Node) (cid last : Nat) (re : Bool) (src : Nat) (body : B)
-    (hchain : BwdChain rs cid last) :
+    (hchain : BwdChain re rs cid last) :
     ∃ s, through A (rs.map Prod.fst) orig src ⟨cid, false, re, body⟩ =
       some (processCell A orig s
         ⟨last, false, re, (rs.map (fun p => p.2.hop.key)).foldl (fun b k => A.enc k .bwd b) body⟩ {}).2 := by
@@ -471,15 +471,21 @@ theorem backward_path (rs : List (Node × Relay)) (orig : Node) (cid last : Nat)
     obtain ⟨s, hs⟩ := ih nx.next n.self (A.enc nx.hop.key .bwd body) h4
     refine ⟨s, ?_⟩
     simp only [List.map_cons, through, List.foldl_cons]
-    rw [relay_backward_step A n src {} cid re body nx h1 h2 (Or.inr h3)]
+    rw [relay_backward_step A n src {} cid re body nx h1 h2 h3]
     exact hs
 
 /-- the hypotheses of the path theorems are satisfiable (symbolic AEAD): a two-relay chain through nodes that also
     carry a second circuit; the data leaves through exit entry 700 of node 3 and nowhere else -/
 example : through sym [exR1, exR2] exX 9 ⟨500, false, true, encryptAll sym .fwd [71, 72, 73] (sym.plain (.data 55 0 7))⟩
     = some [Out.exitOut 700 55 7] := by decide
-example : FwdChain [(exR1, ⟨600, ⟨2, 2, 71⟩, .fwd, 1⟩), (exR2, ⟨700, ⟨3, 3, 72⟩, .fwd, 1⟩)] 500 700 := by
+example : FwdChain true [(exR1, ⟨600, ⟨2, 2, 71⟩, .fwd, 1⟩), (exR2, ⟨700, ⟨3, 3, 72⟩, .fwd, 1⟩)] 500 700 := by
   simp [FwdChain, exR1, exR2, Node.init, get, maxRE]
+/-- steady state: relays that have carried thousands of cells (relay_early budget long spent) still satisfy the
+    chain hypothesis for unflagged cells, and the data still leaves through exit entry 700 only -/
+example : FwdChain false [(exR1old, ⟨600, ⟨2, 2, 71⟩, .fwd, 4000⟩), (exR2, ⟨700, ⟨3, 3, 72⟩, .fwd, 1⟩)] 500 700 := by
+  simp [FwdChain, exR1old, exR2, Node.init, get]
+example : through sym [exR1old, exR2] exX 9 ⟨500, false, false, encryptAll sym .fwd [71, 72, 73] (sym.plain (.data 55 0 7))⟩
+    = some [Out.exitOut 700 55 7] := by decide
 /-- and the way back reaches the originator labelled with ITS id (500), not with any id of the other circuit -/
 example : through sym [exR2, exR1] exO 3 ⟨700, false, false, sym.enc 73 .bwd (sym.plain (.data 0 44 8))⟩
     = some [Out.rawIn 500 44 8] := by decide
@@ -490,8 +496,8 @@ example : processCell sym exR1 8 ⟨500, false, false, encryptAll sym .fwd [81, 
     = (exR1, []) := by decide
 /-- a CREATE for id 700, in use at node 3, is refused; a destroy for 700 signed by peer 5 (not the hop, peer 2) too -/
 example : exX.inUse 700 = true := by decide
-example : onDestroy (B := SymBody) exX 5 700 true = (exX, []) := by decide
-example : (onDestroy (B := SymBody) exX 2 700 true).1.exits = [] := by decide
+example : onDestroy (B := SymBody) exX 5 700 true 1 = (exX, []) := by decide
+example : (onDestroy (B := SymBody) exX 2 700 true 1).1.exits = [] := by decide
 
 
 /-- NEGATION WITNESS for the full statement above (known finding `…third-party-data-delivered-while-extending`):
@@ -549,7 +555,7 @@ theorem park_only_in_own_queue (n : Node) (src cid dest tag : Nat) :
 theorem queue_own_step (n : Node) (e : Ev B) (hq : QueueOwn n) : QueueOwn (step A n e).1 := by
   cases e with
   | cell src c ch => exact processCell_qo A n src c ch hq
-  | destroy signer cid ok => exact onDestroy_qo n signer cid ok hq
+  | destroy signer cid ok reason => exact onDestroy_qo n signer cid ok reason hq
   | create cid goal hp ha ident =>
     exact qo_same (by simp only [step, apiCreate]; rw [sendMsg_exits]) hq
   | sendData cid dest tag =>
@@ -575,7 +581,12 @@ theorem queue_own_step (n : Node) (e : Ev B) (hq : QueueOwn n) : QueueOwn (step 
     simp only [step, apiRemoveRelay]
     repeat' (first | rfl | split | dsimp only)
   | openStep cid => exact openStep_qo n cid hq
-  | tick => exact qo_same rfl hq
+  | expireCreated cid => exact qo_same rfl hq
+  | expireCreate num => exact qo_same rfl hq
+  | expireRetry cid ch =>
+    refine qo_same ?_ hq
+    simp only [step, expireRetry]
+    repeat' (first | rfl | (rw [sendMsg_exits]) | split | dsimp only)
 
 /-- … hence it holds after every history (unbounded, any interleaving of any number of circuits) from a node
     whose queues are empty, in particular from the initial node -/
@@ -618,60 +629,135 @@ example : get (openStep (B := SymBody) exQ 700).1.exits 701 = get exQ.exits 701 
 example : QueueOwn (Node.init 1) := by decide
 
 
-/-! ## an id is not handed to another circuit while an extension of the old one is pending (id re-use over time) -/
 
-/-- `PendingCovered` (every pending CreateRequestCache refers to an id still held by the created-cache) is preserved
-    by EVERY step: removing an exit socket, a relay or a circuit does not release the id; only the time-out tick
-    does, and it drops the pending requests with it -/
-theorem pending_covered_step (n : Node) (e : Ev B) (hp : PendingCovered n) : PendingCovered (step A n e).1 := by
-  refine pc_of_cc ?_ hp
-  cases e with
-  | cell src c ch => exact processCell_cc A n src c ch
-  | destroy signer cid ok => exact onDestroy_cc n signer cid ok
-  | create cid goal hpeer ha ident =>
-    exact cc_same (by simp only [step, apiCreate]; exact (sendMsg_cc A _ _ _ _).1)
-      (by simp only [step, apiCreate]; exact (sendMsg_cc A _ _ _ _).2)
-  | sendData cid dest tag =>
-    simp only [step, apiSendData]
-    repeat' (first | exact cc_same rfl rfl | exact cc_same (sendMsg_cc A _ _ _ _).1 (sendMsg_cc A _ _ _ _).2 | split)
-  | tunnelData cid org tag =>
-    simp only [step, apiTunnelData]
-    repeat' (first | exact cc_same rfl rfl | exact cc_same (sendMsg_cc A _ _ _ _).1 (sendMsg_cc A _ _ _ _).2 | split)
-  | ping => exact cc_same (pingAll_cc A n n.circuits).1 (pingAll_cc A n n.circuits).2
-  | rmCircuit cid =>
-    simp only [step, apiRemoveCircuit]
-    repeat' (first | exact cc_same rfl rfl | split)
-  | rmExit cid =>
-    simp only [step, apiRemoveExit]
-    repeat' (first | exact cc_same rfl rfl | split)
-  | rmRelay cid =>
-    simp only [step, apiRemoveRelay]
-    repeat' (first | exact cc_same rfl rfl | split | dsimp only)
-  | openStep cid =>
-    simp only [step, openStep]
-    repeat' (first | exact cc_same rfl rfl | split | dsimp only)
-  | tick => exact Or.inr rfl
+/-! ## concurrent circuits: a cell keyed for another entry is a foreign cell (AEAD laws + distinct keys as hypotheses) -/
 
-theorem pending_covered_history (n : Node) (es : List (Ev B)) (hp : PendingCovered n) :
-    PendingCovered (run A n es) := by
-  induction es generalizing n with
-  | nil => exact hp
-  | cons e t ih => exact ih _ (pending_covered_step A n e hp)
+/-- at a relay shared by several circuits: a cell whose outermost layer was made for another key (or the other
+    direction) — e.g. a cell of circuit Y presented under X's id — is a `ForeignCell` for X's forward entry, hence a
+    complete no-op (`foreign_cell_noop`).  Key distinctness of different entries is the explicit hypothesis `hk`. -/
+theorem cell_of_other_circuit_is_foreign_at_relay (L : AeadLaws A) (n : Node) (cid : Nat) (re : Bool) (nx : Relay)
+    (k' : Nat) (d' : Dir) (inner : B) (hr : get n.relays cid = some nx) (hd : nx.dir = .fwd)
+    (hk : ¬ (k' = nx.hop.key ∧ d' = .fwd)) :
+    ForeignCell A n ⟨cid, false, re, A.enc k' d' inner⟩ := by
+  refine ⟨rfl, ?_⟩
+  simp only [hr]
+  exact ⟨hd, dec_other_key_none L _ _ _ _ _ hk⟩
 
-/-- consequence: as long as an extension of circuit id X is pending at a node, a CREATE for X is refused there —
-    whether or not X's exit entry still exists.  So a late CREATED can never find, under `from_circuit_id`, an exit
-    entry that was created for a different circuit after the extension was requested. -/
-theorem no_recreate_while_extension_pending (n : Node) (hp : PendingCovered n) (rq : CreateReq) (hrq : rq ∈ n.creates)
-    (src ident pk dh : Nat) : onCreate A n src rq.fromId ident pk dh = (n, []) :=
-  create_in_use_refused A n src rq.fromId ident pk dh (Or.inr (hp rq hrq))
+theorem cell_of_other_circuit_is_foreign_at_exit (L : AeadLaws A) (n : Node) (cid : Nat) (re : Bool) (e : ExitE)
+    (k' : Nat) (d' : Dir) (inner : B) (hr : get n.relays cid = none) (he : get n.exits cid = some e)
+    (hk : ¬ (k' = e.hop.key ∧ d' = .fwd)) :
+    ForeignCell A n ⟨cid, false, re, A.enc k' d' inner⟩ := by
+  refine ⟨rfl, ?_⟩
+  simp only [hr, he]
+  exact dec_other_key_none L _ _ _ _ _ hk
 
-example : PendingCovered (Node.init 1) := by intro rq h; cases h
-example : PendingCovered exP ∧ exP.creates ≠ [] := by
-  refine ⟨?_, by decide⟩
-  intro rq h
-  simp [exP, Node.init] at h
-  subst h
-  decide
+theorem cell_of_other_circuit_is_foreign_at_originator (L : AeadLaws A) (n : Node) (cid : Nat) (re : Bool) (circ : Circ)
+    (h1 : Hop) (hs : List Hop) (k' : Nat) (d' : Dir) (inner : B) (hr : get n.relays cid = none)
+    (he : get n.exits cid = none) (hc : get n.circuits cid = some circ) (hh : circ.hops = h1 :: hs)
+    (hk : ¬ (k' = h1.key ∧ d' = .bwd)) :
+    ForeignCell A n ⟨cid, false, re, A.enc k' d' inner⟩ := by
+  refine ⟨rfl, ?_⟩
+  simp only [hr, he, hc]
+  right
+  simp [hh, decryptAll, dec_other_key_none L _ _ _ _ _ hk]
+
+/-- so, for any two entries with different keys, circuit Y's cell under X's id changes nothing and is not forwarded -/
+theorem other_circuits_cell_noop_at_relay (L : AeadLaws A) (n : Node) (src cid : Nat) (re : Bool) (nx : Relay)
+    (k' : Nat) (d' : Dir) (inner : B) (ch : Choice) (hr : get n.relays cid = some nx) (hd : nx.dir = .fwd)
+    (hk : ¬ (k' = nx.hop.key ∧ d' = .fwd)) :
+    processCell A n src ⟨cid, false, re, A.enc k' d' inner⟩ ch = (n, []) :=
+  foreign_cell_noop A n src _ ch (cell_of_other_circuit_is_foreign_at_relay A L n cid re nx k' d' inner hr hd hk)
+
+/-! ## id re-use over time: an extension completes only for the peer that asked for it -/
+
+/-- `on_created` on a pending extension `rq`: if it changes the relay table or the exit table at all, the exit entry
+    found under `rq.fromId` belongs to the peer the extension was requested by (repaired code; before the repair any
+    exit entry under that id was converted, whoever it belonged to).  Residual: the SAME peer re-creating the id while
+    its own old extension is pending is not distinguished. -/
+theorem extension_completes_only_for_requesting_peer (n : Node) (cid ident key authPk dhRef : Nat) (ch : Choice)
+    (rq : CreateReq) (rest : List CreateReq) (hpop : popCreate n.creates ident = some (rq, rest)) :
+    let r := onCreated A n cid ident key authPk dhRef ch
+    (r.1.relays = n.relays ∧ r.1.exits = n.exits ∧ r.2 = []) ∨
+    (∃ e, get n.exits rq.fromId = some e ∧ e.hop.peer = rq.peer.peer) := by
+  unfold onCreated
+  simp only [hpop]
+  cases he : get n.exits rq.fromId with
+  | none => exact Or.inl ⟨rfl, rfl, rfl⟩
+  | some e =>
+    by_cases hpeer : e.hop.peer = rq.peer.peer
+    · exact Or.inr ⟨e, rfl, hpeer⟩
+    · left
+      simp only [ne_eq, hpeer, not_false_eq_true, if_true]
+      exact ⟨trivial, trivial, trivial⟩
+
+/-- and whatever it does, it touches only the two ids of that extension: every other relay entry and every other exit
+    entry is as before (no freshness assumption needed for this; what is NOT excluded is that `rq.toId` or `rq.fromId`
+    already named a relay entry of another circuit — `_generate_circuit_id` only avoids ids in `circuits`) -/
+theorem extension_touches_only_its_ids (n : Node) (cid ident key authPk dhRef : Nat) (ch : Choice)
+    (rq : CreateReq) (rest : List CreateReq) (hpop : popCreate n.creates ident = some (rq, rest)) :
+    let r := onCreated A n cid ident key authPk dhRef ch
+    (∀ k, k ≠ rq.toId → k ≠ rq.fromId → get r.1.relays k = get n.relays k) ∧
+    (∀ k, k ≠ rq.fromId → get r.1.exits k = get n.exits k) := by
+  unfold onCreated
+  simp only [hpop]
+  cases he : get n.exits rq.fromId with
+  | none => exact ⟨fun _ _ _ => rfl, fun _ _ => rfl⟩
+  | some e =>
+    by_cases hpeer : e.hop.peer = rq.peer.peer
+    · simp only [ne_eq, hpeer, not_true_eq_false, if_false]
+      split
+      · exact ⟨fun _ _ _ => rfl, fun _ _ => rfl⟩
+      · refine ⟨fun k h1 h2 => ?_, fun k h2 => ?_⟩
+        · unfold sendMsg
+          rw [(sendCell_relays A _ _ _ _).1]
+          rw [get_set_other _ _ _ _ h2, get_set_other _ _ _ _ h1]
+        · unfold sendMsg
+          rw [get_del_other _ _ _ h2, (sendCell_relays A _ _ _ _).2]
+    · simp only [ne_eq, hpeer, not_false_eq_true, if_true]
+      exact ⟨fun _ _ _ => trivial, fun _ _ => trivial⟩
+
+/-- the extending side of "an id that is in use is never replaced": if the id reserved for the next hop has been
+    taken meanwhile (by any of the three tables), the late CREATED installs nothing -/
+theorem extension_never_overwrites_a_used_id (n : Node) (cid ident key authPk dhRef : Nat) (ch : Choice)
+    (rq : CreateReq) (rest : List CreateReq) (hpop : popCreate n.creates ident = some (rq, rest))
+    (huse : n.inUse rq.toId = true) :
+    let r := onCreated A n cid ident key authPk dhRef ch
+    r.1.relays = n.relays ∧ r.1.exits = n.exits ∧ r.1.circuits = n.circuits ∧ r.2 = [] := by
+  unfold onCreated
+  simp only [hpop]
+  cases he : get n.exits rq.fromId with
+  | none => exact ⟨rfl, rfl, rfl, rfl⟩
+  | some e =>
+    have h' : ({ n with creates := rest } : Node).inUse rq.toId = true := huse
+    by_cases hpeer : e.hop.peer = rq.peer.peer
+    · simp only [ne_eq, hpeer, not_true_eq_false, if_false, h', if_true]
+      exact ⟨trivial, trivial, trivial, trivial⟩
+    · simp only [ne_eq, hpeer, not_false_eq_true, if_true]
+      exact ⟨trivial, trivial, trivial, trivial⟩
+
+/-- the created-cache does NOT protect an id for as long as an extension of it is pending: the two caches expire
+    independently (60 s from join_circuit vs 10 s from on_extend).  Witness: `exP` (exit 700 gone, extension pending,
+    id still in the created-cache) loses the created-cache entry first; a third party's CREATE for 700 is then
+    ACCEPTED … -/
+theorem partial_expiry_reopens_id :
+    PendingCovered exP ∧ ¬ PendingCovered (expireCreated exP 700) ∧
+    (get (onCreate sym (expireCreated exP 700) 8 700 5 8 0).1.exits 700).isSome = true := by
+  refine ⟨?_, ?_, by decide⟩
+  · intro rq h
+    simp [exP, Node.init] at h
+    subst h
+    decide
+  · intro h
+    have := h ⟨5, 9, 900, 700, ⟨2, 2, 0⟩, ⟨4, 4, 0⟩⟩ (by simp [exP, expireCreated, Node.init])
+    revert this
+    decide
+
+/-- … but the late CREATED of the old extension (requested for peer 2) leaves the newcomer's exit entry (peer 8)
+    alone: it stays an exit socket with its own key, no relay entry appears, nothing is sent -/
+theorem late_created_spares_the_new_owner :
+    let n1 := (onCreate sym (expireCreated exP 700) 8 700 5 8 0).1
+    let r := onCreated sym n1 900 5 4444 4 0 {}
+    r.1.relays = [] ∧ get r.1.exits 700 = get n1.exits 700 ∧ r.2 = [] := by decide
 
 /-! ## any number of third-party events, in any order -/
 
@@ -683,7 +769,7 @@ theorem foreign_event_noop (n : Node) (e : Ev B) (h : ForeignEv A n e) : step A 
   | createInUse src c ch ident pk dh hp hm hu => exact create_cell_in_use_refused A n src c ch ident pk dh hp hm hu
   | createdStale src c ch ident key authPk dhRef hp hm h1 h2 =>
     exact created_not_outstanding_noop A n src c ch ident key authPk dhRef hp hm h1 h2
-  | destroy signer cid ok hd => exact destroy_unauthorised_noop n signer cid ok hd
+  | destroy signer cid ok reason hd => exact destroy_unauthorised_noop n signer cid ok reason hd
 
 /-- unbounded: after ANY sequence of forged cells (unknown ids, known ids without keys, spliced cells, plaintext
     non-creates, CREATEs for ids in use, stale CREATEDs) and unauthorised destroys the node is exactly as before -/
